@@ -706,6 +706,9 @@ func run(id, tier, onlyUnit, caseIdx string) int {
 	known := map[string]int{}
 	newViol := 0
 	replayDir := filepath.Join(verifDir, "evidence", "replay", id)
+	if v := os.Getenv("VERIF_REPLAY_DIR"); v != "" { // development aid (parallel trials against scratch worktrees)
+		replayDir = v
+	}
 	seenV := map[string]bool{}
 	var lines []string
 	for _, v := range viols {
@@ -788,7 +791,7 @@ func run(id, tier, onlyUnit, caseIdx string) int {
 	} else if exit == 2 {
 		verdict = "ERROR"
 	}
-	fmt.Printf("%s property=%s tier=%s seed=%d evaluations=%d distinct_nontrivial=%d known=%d wall=%.1fs\n", verdict, id, tier, seed, evals, distinct, len(known), time.Since(t0).Seconds())
+	fmt.Printf("%s property=%s tier=%s seed=%d evaluations=%d distinct_nontrivial=%d violations=%d known=%d wall=%.1fs\n", verdict, id, tier, seed, evals, distinct, newViol, len(known), time.Since(t0).Seconds())
 	return exit
 }
 
